@@ -39,7 +39,7 @@ package kmipclient
 // closedInv: a client that has been closed keeps no open connection attached
 //@ ghostvar clientClosed bool
 //@ ghostvar connClosed bool
-//@ spec closedInv(c *Client) bool = clientClosed && c.conn != nil ==> connClosed
+//@ spec closedInv(c *Client) bool = (clientClosed == (c.closed.v != 0)) && (c.conn != nil ==> connClosed == clientClosed)
 //@ spec clientOK(c *Client) bool = c != nil && c.lock != nil && c.dialer != nil && lockHeld == 0 && (0 < len(c.middlewares) ==> c.middlewares[0] != nil) && closedInv(c)
 
 //@ func (*Client).nextAt$1
@@ -202,9 +202,9 @@ package kmipclient
 
 //@ func (*Client).reconnect
 //@   requires c != nil && c.dialer != nil && (c.conn == nil || lastErrRetryable || connBroken)
-//@   ensures r0 == nil ==> c.conn != nil && !connBroken && !connClosed
+//@   ensures r0 == nil ==> c.conn != nil && isnew(c.conn) && !connBroken && !connClosed
 //@   ensures r0 != nil ==> c.conn == nil
-//@   modifies c.conn
+//@   modifies c.conn, c.conn.closed.v
 //@   ghostmod connBroken, connClosed
 //@   ghost dials = old(dials) + 1
 
@@ -212,13 +212,12 @@ package kmipclient
 //@   requires c != nil && c.lock != nil && c.dialer != nil && lockHeld == 0 && closedInv(c)
 //@   ensures closedInv(c) && clientClosed == old(clientClosed)
 //@   ensures old(clientClosed) ==> r1 != nil && dials == old(dials)
-//@   ensures c.conn != nil && connClosed ==> old(c.conn) == c.conn && old(connClosed)
 //@   ensures transmissions-old(transmissions) >= 0 && transmissions-old(transmissions) <= 4
 //@   ensures dials-old(dials) >= 0 && dials-old(dials) <= 4
 //@   ensures lockHeld == 0
 //@   ensures r1 == nil ==> r0 != nil
-//@   ensures old(c.conn) != nil && old(connBroken) ==> dials-old(dials) >= 1
-//@   modifies c.conn
+//@   ensures old(c.conn) != nil && old(connBroken) && !old(connClosed) && !old(clientClosed) ==> dials-old(dials) >= 1
+//@   modifies c.conn, c.conn.closed.v
 //@   ghostmod transmissions, dials, lastErrRetryable, connBroken, connClosed
 //@   ghost rtCalls = old(rtCalls) + 1
 //@   ghost rtCtx = ctx
@@ -227,11 +226,14 @@ package kmipclient
 //@   ghost rtErr = r1
 //@   loop 0 invariant 0 <= retry && retry <= 3 && lockHeld == 1 && c.conn != nil
 //@   loop 0 invariant transmissions-old(transmissions) == 3-retry && dials-old(dials) >= 0 && dials-old(dials) <= 4-retry
-//@   loop 0 invariant old(c.conn) != nil && old(connBroken) ==> dials-old(dials) >= 1
+//@   loop 0 invariant old(c.conn) != nil && old(connBroken) && !old(connClosed) ==> dials-old(dials) >= 1
+//@   loop 0 invariant !clientClosed && clientClosed == old(clientClosed) && closedInv(c) && !connClosed
+//@   loop 0 invariant c.conn == atloop(c.conn) || isnewloop(c.conn)
 //@   loop 0 ghostmod transmissions, dials, lastErrRetryable, connBroken, connClosed
 
 //@ func (*Client).Close
 //@   requires c != nil
 //@   ensures closedInv(c)
+//@   modifies c.closed.v, c.conn.closed.v
 //@   ghost clientClosed = true
 //@   ghostmod connBroken, connClosed
